@@ -62,6 +62,14 @@ func runC12(c *Ctx) {
 		for k := 0; k < c.N(100, 2000); k++ {
 			add(sym("date", nd), sym("date", int64(r.Intn(10000)), int64(r.Intn(13)), int64(r.Intn(32))), 0, fmt.Sprintf("date/nd%d/random", nd))
 		}
+		// runs of dates within one month (what a table ordered by date holds): the retention check of runCellCases keeps
+		// the last values while the next ones are decoded
+		for k := 0; k < c.N(6, 60); k++ {
+			y, m := int64(r.Intn(10000)), int64(r.Intn(13))
+			for j := 0; j < 8; j++ {
+				add(sym("date", nd), sym("date", y, m, int64((j*5+k)%32)), 0, fmt.Sprintf("date/nd%d/same-month-run", nd))
+			}
+		}
 	}
 	// old TIME, both signs
 	times := [][3]int64{{0, 0, 0}, {0, 0, 1}, {0, 1, 0}, {1, 0, 0}, {1, 2, 3}, {9, 59, 59}, {10, 0, 0}, {99, 59, 59}, {100, 0, 0}, {838, 59, 59}, {23, 24, 25}}
@@ -156,6 +164,23 @@ func runC12(c *Ctx) {
 			1710054000, 1710054001, 1711846800, 1730595600, 1301752800, 1325239200}
 		for k := 0; k < c.N(60, 3000); k++ {
 			insts = append(insts, int64(uint32(r.U64())))
+		}
+		// runs of equal instants (rows written within one second), old and new encoding, without and with a fraction
+		for k := 0; k < 3; k++ {
+			v := int64(uint32(r.U64()))
+			if v == 0 {
+				v = 1
+			}
+			for j := 0; j < 9; j++ {
+				switch k {
+				case 0:
+					addz(sym("timestamp"), sym("ts", v, 0), v, "timestamp/same-second-run/"+zn)
+				case 1:
+					addz(sym("ts2", 0), sym("ts", v, 0), v, "timestamp2/f0/same-second-run/"+zn)
+				default:
+					addz(sym("ts2", 3), sym("ts", v, int64(j*111)), v, "timestamp2/f3/same-second-run/"+zn)
+				}
+			}
 		}
 		for _, v := range insts {
 			addz(sym("timestamp"), sym("ts", v, 0), v, "timestamp/"+zn)
